@@ -1,6 +1,6 @@
 HOOK_COMMITS = ["1ae4f10", "19e3492"]
 ENGINES = [
-    {"name": "ipamsim", "path": "/verif/harness/ipamsim", "serves_properties": ["C01", "C02", "C03", "C04", "C05", "C07", "C09", "C10"],
+    {"name": "ipamsim", "path": "/verif/harness/ipamsim", "serves_properties": ["C01", "C02", "C03", "C04", "C05", "C06", "C07", "C08", "C09", "C10"],
      "kind_free_text": "simulated cluster around the real galaxy-ipam plugin: fake API server trackers, informer model, cooperative "
                        "scheduler owning the interleaving, fault/crash injection, recording cloud provider; rapid stateful generation"},
     {"name": "codec", "path": "/verif/harness/codec", "serves_properties": ["C20"],
@@ -44,3 +44,7 @@ TEXTS["C07"] = _h("DESIGN.md §4 C07", "stateful property-based testing (rapid) 
                   "Concurrent filters / pool API calls are interleaved at IPAM-call granularity so that 'count' and 'allocate' of two requests can be separated.")
 TEXTS["C09"] = _h("DESIGN.md §4 C09", "stateful property-based testing (rapid) with generated schedules: never-allocated sets and memory==store after reloads that overlap other operations",
                   "Reloads are run concurrently with allocations/releases/reservation events under the harness-owned scheduler (yield points include the store List inside the reload).")
+TEXTS["C06"] = _h("DESIGN.md §4 C06", "property-based testing (rapid): generated topologies/allocation states/requests, routable-set model computed from the configuration text",
+                  "The filter result and the binding payload are compared with a model derived from the configuration text, independent of IPAM's tables.")
+TEXTS["C08"] = _h("DESIGN.md §4 C08", "fault-injection property testing (rapid): per-case enumeration of the failing creation index, conformance / all-or-nothing vs. pre-state",
+                  "Every creation index of every generated request is failed once, at the IPAM level and through Filter+Bind.")
